@@ -347,6 +347,39 @@ func (c *FnCtx) execBlock(fr *frame, b *ssa.BasicBlock, st0 *State, g0 string) {
 				}
 				st.alloc = na
 			}
+			// names bound by `capture` survive joins: a fresh value equal to the captured one on every incoming
+			// edge that has it (unconstrained on edges where the callee was not called)
+			capMerged := map[string]Term{}
+			if fr.top && fr.con != nil {
+				for _, css := range fr.con.Capture {
+					for _, cs := range css {
+						var have *Term
+						differ := false
+						for _, e := range ins {
+							if w, ok := fr.out[e.p].names[cs.Name]; ok {
+								if have == nil {
+									ww := w
+									have = &ww
+								} else if have.S != w.S {
+									differ = true
+								}
+							} else {
+								differ = true
+							}
+						}
+						if have == nil || !differ {
+							continue
+						}
+						nv := c.fresh("cap_"+cs.Name, have.Sort)
+						for _, e := range ins {
+							if w, ok := fr.out[e.p].names[cs.Name]; ok {
+								c.assume(e.cond, fmt.Sprintf("(= %s %s)", nv, w.S))
+							}
+						}
+						capMerged[cs.Name] = Term{S: nv, Sort: have.Sort, T: have.T}
+					}
+				}
+			}
 			for k, v := range st.names {
 				for _, e := range ins[1:] {
 					if w, ok := fr.out[e.p].names[k]; !ok || w.S != v.S {
@@ -354,6 +387,9 @@ func (c *FnCtx) execBlock(fr *frame, b *ssa.BasicBlock, st0 *State, g0 string) {
 						break
 					}
 				}
+			}
+			for k, v := range capMerged {
+				st.names[k] = v
 			}
 			for _, e := range ins[1:] {
 				if len(fr.out[e.p].defers) != len(st.defers) {
@@ -568,6 +604,10 @@ func (c *FnCtx) loopHeader(fr *frame, b *ssa.BasicBlock, li *loopInfo, st *State
 		for i, inv := range li.spec.Inv {
 			t := c.evalBool(env, inv.E)
 			c.oblige("inv-entry", fmt.Sprintf("inv-entry#%s.%s", name, clauseName(inv, i)), guard, t, inv.Src)
+		}
+		for i, en := range li.spec.Entry {
+			t := c.evalBool(env, en.E)
+			c.oblige("inv-entry", fmt.Sprintf("loop-entry#%s.%s", name, clauseName(en, i)), guard, t, en.Src)
 		}
 	}
 	// havoc
